@@ -133,7 +133,7 @@ impl<'a> Selector<'a> {
             // `@` is only valid inside a filter expression.
             current.ok_or(Error::InvalidJsonPath)?.clone()
         } else {
-            Position::Container((0, root.len()))
+            Self::root_position(root)
         };
         poses.push_back(start_pos);
 
@@ -172,6 +172,19 @@ impl<'a> Selector<'a> {
             }
         }
         Ok(poses)
+    }
+
+    // The position of the root value, a scalar root value is a `Scalar` position,
+    // so that it can be filtered and collected like any other scalar value.
+    fn root_position(root: &[u8]) -> Position {
+        if let Ok((rest, (ty, _))) = decode_header(root) {
+            if ty == SCALAR_CONTAINER_TAG {
+                if let Ok((_, (jty, jlength))) = decode_jentry(rest) {
+                    return Position::Scalar((jty, 8, jlength));
+                }
+            }
+        }
+        Position::Container((0, root.len()))
     }
 
     fn select_path(
@@ -526,7 +539,7 @@ impl<'a> Selector<'a> {
                 if let Some(Path::Current) = paths.first() {
                     poses.push_back(pos.clone());
                 } else {
-                    poses.push_back(Position::Container((0, root.len())));
+                    poses.push_back(Self::root_position(root));
                 }
 
                 for path in paths.iter().skip(1) {
